@@ -107,6 +107,7 @@ def run(chk: lib.Check):
     url_cases = []
     b_ = lambda x: x.encode("utf-8", "surrogateescape")
     counts = {k: 0 for k in KINDS}
+    counts_list: dict = {}
     with lib.scratch("c14-") as tmp:
         rootdir = tmp / "root"
         rootdir.mkdir()
@@ -278,6 +279,44 @@ def run(chk: lib.Check):
                     except Exception as e:  # noqa: BLE001
                         tcases.append(((KINDS["git"], sub, f), err_of(e)))
                 chk.note_case(("h", sub, f), nontrivial=(".." in f or f.startswith("/")))
+            # listing: the directories a handler's iterdir() reads lie below its root, whatever the argument; what it yields has no
+            # ".." and is relative
+            orig_iterdir = pathlib.Path.iterdir
+            for kind_, h_ in (("local", lh), ("git", gh), ("memory", mh), ("zip", zh)):
+                if h_ is None:
+                    continue
+                if kind_ == "local":
+                    base_real = os.path.realpath(os.path.join(str(rootdir), *sub_parts))
+                    os.makedirs(os.path.join(base_real, "a", "b c"), exist_ok=True)
+                elif kind_ == "git":
+                    base_real = os.path.realpath(os.path.join(str(gh.cache_dir), *sub_parts))
+                for d_ in hpaths:
+                    seen_: list = []
+
+                    def fake_iterdir(self):
+                        if isinstance(self, pathlib.PosixPath):
+                            seen_.append(str(self))
+                        return orig_iterdir(self)
+                    pathlib.Path.iterdir = fake_iterdir
+                    try:
+                        try:
+                            got_ = list(h_.iterdir(d_))
+                        except Exception:  # noqa: BLE001
+                            got_ = []
+                    finally:
+                        pathlib.Path.iterdir = orig_iterdir
+                    counts_list[kind_] = counts_list.get(kind_, 0) + 1
+                    if kind_ in ("local", "git"):
+                        for s_ in seen_:
+                            real = os.path.realpath(s_)
+                            if not (real == base_real or real.startswith(base_real + os.sep)):
+                                chk.violation(f"iterdir:{kind_}:{sub}:{d_!r}", f"{type(h_).__name__}(subdir={sub!r}).iterdir({d_!r}) lists {real}, outside {base_real}",
+                                              {"handler": kind_, "subdir": sub, "dir": d_, "real": real})
+                    for g_ in got_:
+                        gp_ = pathlib.PurePosixPath(str(getattr(g_, "_path", g_)))
+                        if ".." in gp_.parts or gp_.is_absolute():
+                            chk.violation(f"iterdir-yield:{kind_}:{sub}:{d_!r}", f"{type(h_).__name__}(subdir={sub!r}).iterdir({d_!r}) yields {gp_}",
+                                          {"handler": kind_, "subdir": sub, "dir": d_, "yielded": str(gp_)})
             # writes through the git handler, all names in one dry-run transaction: whatever appears in the file system (files AND
             # directories, also ones left behind after the rollback) lies below the work tree's subdir
             if gh is not None:
@@ -381,6 +420,7 @@ def run(chk: lib.Check):
         gc.collect()
     chk.samples.append({"handler_target": [tcases[11][0], tcases[11][1]] if len(tcases) > 11 else None})
     chk.coverage["handler_cases"] = counts
+    chk.coverage["iterdir_calls_judged"] = counts_list
     chk.coverage["rule"] = ("exhaustive over component alphabet %r with optional leading '/', length <= %d for normalize_pure_path "
                             "(x %d bases) and <= %d for each handler x %d subdirs; plus seeded random longer strings; "
                             "non-trivial = contains '..' or is absolute" % (ALPHA, maxlen, len(bases), 2 if quick else 4, len(SUBDIRS)))
